@@ -36,8 +36,8 @@ CFG = {
                  "token range off a character boundary is an oracle failure); the case carries the token byte ranges or the error class; the "
                  "checker (Corr/CorrC06Lex.v) requires that the model's ranges (Lexer.lex_spanned) equal them, that every start and end of a "
                  "real token is 0 or one of the model's slicing offsets (LexerSlices.slice_offsets), and that every slicing offset - also of a "
-                 "run that ends in Err - is a character boundary of that source. Sources, for each of the 13 accepted delimiter sets of the "
-                 "oracle pool (3 of them made of 2-byte characters): every kind of lexer step spelled in those delimiters (11 texts; 28 "
+                 "run that ends in Err - is a character boundary of that source. Sources, for each of 15 accepted delimiter sets (the 13 of the "
+                 "oracle pool + 2; 4 of them contain 2-byte-character delimiters, one mixes them with ASCII ones and reuses the text characters): every kind of lexer step spelled in those delimiters (11 texts; 28 "
                  "expressions x 4 marker/whitespace spellings incl. multi-byte string contents, escapes before multi-byte characters, "
                  "unterminated strings, out-of-range integers, non-ASCII identifiers; 10 tags; 9 raw bodies x 5 spellings incl. unclosed and "
                  "fake `{% `; 7 comment bodies x 4 incl. unclosed) with one of 5 multi-byte characters (2, 3, 4 bytes, NBSP, a combining mark) "
